@@ -551,6 +551,52 @@ def shard_badkeys(rec):
                     rec.violation('badkey:route-accepted', f'width {width}: key {key} given through {route} was accepted; the serialised cell holds {got}', 'shard_badkeys', {})
                     rec.outcome('ACCEPTED')
     rec.covered('badkey:routes')
+    # ... and the same bad keys written into the map AFTER it was serialised once (the check must not be made only once per object):
+    # through .map item assignment, through the caller's own map_ dictionary, and in the map handed out by from_cell
+    for width in (1, 2, 3, 8, 64):
+        for key in (1 << width, -1, -(1 << width) + 1 if width > 1 else -2, (1 << width) + 5):
+            for route in ('.map[k]', 'map_ owner', 'from_cell().map'):
+                rec.case('badkey-late')
+                rec.state(('badlate', width, key, route))
+                rec.nontriv(('badlate', width, key, route))
+                good = {0: 1, (1 << width) - 1: 2}
+                try:
+                    rec.trans(2)
+                    if route == '.map[k]':
+                        hm = HashMap(width).with_uint_values(8)
+                        for k, v in good.items():
+                            hm.set_int_key(k, v)
+                        owner = hm.map
+                    elif route == 'map_ owner':
+                        owner = dict(good)
+                        hm = HashMap(width, map_=owner).with_uint_values(8)
+                    else:
+                        src = HashMap(width).with_uint_values(8)
+                        for k, v in good.items():
+                            src.set_int_key(k, v)
+                        hm = HashMap.from_cell(src.serialize(), width)
+                        owner = hm.map
+                    first = hm.serialize()
+                    again = hm.serialize()
+                    assert first.hash == again.hash
+                except Exception as e:
+                    rec.violation('badkey:late-setup', f'width {width}: a valid map could not be made / serialised twice through {route}: {exc_name(e)}: {e}', 'shard_badkeys', {})
+                    continue
+                from pytoniq_core.boc import Builder as _B
+                owner[key] = (_B().store_uint(7, 8).end_cell().begin_parse() if route == 'from_cell().map' else 7)
+                try:
+                    cell = hm.serialize()
+                except Exception:
+                    rec.outcome('refused')
+                    continue
+                try:
+                    leaves, _ = RH.parse(_rc(cell), width)
+                    got = {k: v[0] for k, v in leaves.items()}
+                except (RH.RefDictError, RC.RefCellError) as e:
+                    got = f'a malformed dictionary cell ({e})'
+                rec.violation('badkey:late-accepted', f'width {width}: key {key} written through {route} after the map had been serialised was accepted; the serialised cell holds {got}', 'shard_badkeys', {})
+                rec.outcome('ACCEPTED')
+    rec.covered('badkey:late')
     # an address that carries anycast info is longer than the 267-bit addr_std key: refused, not cut to its first 267 bits
     from pytoniq_core.boc import Address
     for depth, pfx in ((1, 1), (5, 21), (30, 12345)):
